@@ -4,3 +4,5 @@ import OrxPar.Lemmas.Spawn
 import OrxPar.Lemmas.Settings
 import OrxPar.Model.Stream
 import OrxPar.Model.Par
+import OrxPar.Model.Kernels
+import OrxPar.Model.Terminals
